@@ -434,6 +434,14 @@ var scenarios = []scenario{
 		s.CreateCollection("big", nil)
 		s.Insert("big", docs, false)
 		s.CreateIndex("big", "x")
+		page := &model.Query{Coll: "big", Sorted: true, Sort: []model.SortOpt{{Field: "x", Dir: 1}}, HasSkip: true, Skip: 100, HasLimit: true, Limit: 50}
+		pageDesc := &model.Query{Coll: "big", Crit: cmpc(model.OpGtEq, "g", int64(0)), Sorted: true, Sort: []model.SortOpt{{Field: "x", Dir: -1}}, HasSkip: true, Skip: 4200, HasLimit: true, Limit: 20}
+		s.FindAll(page) // the same page of the same order, served by the index ...
+		s.FindAll(pageDesc)
+		s.DropIndex("big", "x")
+		s.FindAll(page) // ... and by a sort over all 4305 documents
+		s.FindAll(pageDesc)
+		s.CreateIndex("big", "x")
 		s.DropIndex("big", "x")
 		// one operation between the two: whatever DropIndex left for later is still pending (the monitor holds
 		// foreign write transactions back for three operations) when the index is created again
